@@ -73,13 +73,13 @@ Proof.
   apply (refute _ _ _ wd_missing); [vm_compute; reflexivity | vm_compute; left; reflexivity].
 Qed.
 
-Lemma ttl_tagged_refuted :
-  known_C13_ttl_tagged we_doc = true /\
-  ~ (forall lq, In lq (den (load_ttl (render_doc we_doc) db_new)) <-> In lq (den db_new) \/ In lq (map lq_of4 (triples_of we_doc))).
-Proof.
-  split; [vm_compute; reflexivity|].
-  apply (refute _ _ _ we_missing); [vm_compute; reflexivity | vm_compute; left; reflexivity].
-Qed.
+(* regression: the Turtle term cleaning before fix dbe5296 kept a stray quote on a tagged literal; the repaired
+   one returns the lexical form, and the witness document now loads as the Spec says *)
+Lemma ttl_tagged_regression :
+  clean_turtle_term_old (render_term (TLit [LPlain 120] (SLang [101;110]))) = [120; 34; 64; 101; 110] /\
+  clean_turtle_term (render_term (TLit [LPlain 120] (SLang [101;110]))) = lex [] (TLit [LPlain 120] (SLang [101;110])) /\
+  lq_mem we_missing (den (load_ttl (render_doc we_doc) db_new)) = true.
+Proof. repeat split; vm_compute; reflexivity. Qed.
 
 Lemma n3_hash_refuted :
   known_C13_n3 wf_doc db_new = false /\ known_C13_n3_literal wf_doc = false /\ known_C13_n3_hash wf_doc = true /\
